@@ -68,7 +68,7 @@ def run(ctx):
 
     # ---- R01.3
     ws = job_table.job_state_writes(prog)
-    ctx.floor('R01.3', len(ws), 10, 'JobTaskState write sites')
+    ctx.floor('R01.3', len(ws), 5, 'JobTaskState write sites')
     for owner, b, bi, s, new, old in ws:
         fn = owner.split('::')[-1]
         if owner.startswith(HQ + 'restore::') :
@@ -155,7 +155,7 @@ def run(ctx):
                 okf = (vs is not None and set(vs) == {'None'}) or _is_tail_ok(b, bi)
         ctx.ob('R01.5', f'TaskResult::Finished|{owner.split("::")[-1]}', okf,
                'TaskResult::Finished is constructed only on the status.success() edge (allow-list: child without pid; launcher epilogue helper)', b.loc(bi), detail)
-    ctx.floor('R01.5', n, 2, 'construct sites of TaskResult::Finished')
+    ctx.floor('R01.5', n, 1, 'construct sites of TaskResult::Finished')
 
     # ---- R01.6
     htfs = [prog.bodies[p] for p in prog.with_closures(HTF) if prog.bodies[p].kind == 'coroutine']
